@@ -70,6 +70,7 @@ func runP2Edges(args []string) error {
 	a.Others["notes.txt"] = []byte("unrelated file\n")
 	a.Others["sub/inner.bin"] = []byte{1, 2, 3, 4, 5}
 	a.Others["set.par2.bak"] = []byte("not a par2 file")
+	a.Others["set.stray.par2"] = []byte{} // matches <base>.*.par2 but holds no packet of the set
 	// map volume ids to the files gopar wrote
 	volFile := map[int]string{}
 	layoutOK := true
